@@ -96,6 +96,11 @@ def g2_relation(t):
             lvl[tok] = i
             assoc[tok] = row[0]
     out = []
+    needed = ('UMINUS', 'MULT', 'DIV', 'PLUS', 'MINUS', 'AMP') + CMP
+    missing = [x for x in needed if x not in lvl]
+    if missing:
+        # a token without a declared level: the relation of the statement cannot hold for it
+        return [('G2.declared.%s' % x, False, 'no precedence declared for %s' % x) for x in missing]
 
     def chk(name, cond):
         out.append(('G2.' + name, bool(cond), ''))
@@ -167,5 +172,8 @@ def run(fn_list):
     t = Tables()
     res = []
     for fn in fn_list:
-        res.extend(fn(t))
+        try:
+            res.extend(fn(t))
+        except Exception as ex:          # the artefact no longer has the shape the obligation talks about
+            res.append(('%s.evaluable' % fn.__name__, False, 'could not be evaluated on this grammar: %r' % (ex,)))
     return res
